@@ -14,7 +14,7 @@ def run(prop, tier, seed):
         tabs = tables.v4_tables(tier, seed) + tables.v3_tables(tier, seed, 0) + tables.v3_tables(tier, seed, 1) + tables.v2_tables(tier, seed)
         if tier == "quick":
             # the transposed layouts repeat the same vectors; every 3rd row of the big v4 table
-            tabs = [h for k, h in enumerate(tabs) if k not in (4, 10, 16)]
+            tabs = [h for h in tabs if [d["name"] for d in h["outer"]] != ["E", "RL", "RC"]]
         allrows = [r for t, h in enumerate(tabs, 1) for r in tables.rows_of(t, h)]
         files, total = tables.record(tabs, work, seed, c09=True, rows=allrows, nsamples=0, max_entries_per_file=10 ** 12)
         c.evaluations = total
